@@ -29,12 +29,14 @@ def run(tier):
             for perm in range(math.factorial(n - 1)):
                 if tier == "quick" and perm not in (0, math.factorial(n - 1) - 1):
                     continue
-                for errs in ([0, 3] if tier == "quick" else [0, 1, 3, 6]):
-                    p = {"n": n, "e": e, "perm": perm, "rot": 1, "errs": errs, "err2": 1 if errs == 6 else 0}
+                for errs, err2 in ([(0, 0), (3, 0), (6, 1)] if tier == "quick" else [(0, 0), (1, 0), (3, 0), (6, 0), (6, 1), (3, 1), (7, 1)]):
+                    if tier == "quick" and err2 and n < 3:
+                        continue
+                    p = {"n": n, "e": e, "perm": perm, "rot": 1, "errs": errs, "err2": err2}
                     for j, (f, t) in enumerate(s):
                         p["f%d" % j] = f
                         p["t%d" % j] = t
                     jobs.append(dict(base, harness="VerifC13Canon", params=p))
     return run_property("C13", tier, [Group("resolve", jobs)], required_covers=["canonicalised", "canonicalisation refused"],
-                        assumptions=["graph structure (endpoints, error placement, renumbering, edge rotation) from job parameters; all labels symbolic over {a,b}"],
+                        assumptions=["graph structure (endpoints, error placement, renumbering, edge rotation, order of the two errors of a node) from job parameters; all labels symbolic over {a,b}"],
                         bounds={"sizes_nodes_edges": sizes})
